@@ -46,7 +46,7 @@ Theorem noninplace_pure_all o lk fl :
   (forall l, In l (assigned (eff o lk fl)) -> is_input (fst l) = false).
 Proof.
   intros Hn. pose proof (for_all_calls_spec _ pure_checked o lk fl) as H. unfold chk_pure in H.
-  rewrite Hn in H. simpl in H. apply andb_true_iff in H. destruct H as [A B].
+  rewrite Hn in H. rewrite orb_false_l in H. apply andb_true_iff in H. destruct H as [A B].
   rewrite forallb_forall in A, B.
   split; intros l Hl; [specialize (A l Hl)|specialize (B l Hl)]; apply negb_true_iff; assumption.
 Qed.
@@ -57,7 +57,7 @@ Theorem result_separate_all o lk fl :
 Proof.
   intros Hn c Hc r Hr. rewrite mutable_comps_value in Hc.
   pose proof (for_all_calls_spec _ separate_checked o lk fl) as H. unfold chk_separate_on in H.
-  rewrite Hn in H. simpl in H. rewrite forallb_forall in H. specialize (H c Hc).
+  rewrite Hn in H. rewrite orb_false_l in H. rewrite forallb_forall in H. specialize (H c Hc).
   rewrite forallb_forall in H. apply negb_true_iff. exact (H r Hr).
 Qed.
 
@@ -76,14 +76,16 @@ Proof.
   split; intros l Hl E; [specialize (A l Hl)|specialize (B l Hl)]; rewrite E in *; discriminate.
 Qed.
 
-Theorem chains_resolved_all o lk fl t c :
-  forall r, In r (roots FUEL (eff o lk fl) (t, c)) -> sources (eff o lk fl) r = [].
+Theorem chains_resolved_all o lk fl l :
+  (exists c, l = (Res, c)) \/ In (Write l) (eff o lk fl) ->
+  forall r, In r (roots FUEL (eff o lk fl) l) -> sources (eff o lk fl) r = [].
 Proof.
-  intros r Hr. pose proof (for_all_calls_spec _ resolved_checked o lk fl) as H. unfold chk_resolved in H.
+  intros Hl r Hr. pose proof (for_all_calls_spec _ resolved_checked o lk fl) as H. unfold chk_resolved in H.
   rewrite forallb_forall in H.
-  assert (Ht : In t [Recv; Arg; Copy; Work; Work2; Mid; Res]) by (destruct t; simpl; tauto).
-  specialize (H t Ht). rewrite forallb_forall in H.
-  assert (Hc : In c all_comps) by (destruct c; simpl; tauto).
-  specialize (H c Hc). rewrite forallb_forall in H. specialize (H r Hr).
+  assert (Hin : In l (map (fun c => (Res, c)) all_comps ++ write_targets (eff o lk fl))).
+  { apply in_or_app. destruct Hl as [[c ->]|Hw].
+    - left. apply in_map. destruct c; simpl; tauto.
+    - right. unfold write_targets. apply in_flat_map. exists (Write l). split; [exact Hw|left; reflexivity]. }
+  specialize (H l Hin). rewrite forallb_forall in H. specialize (H r Hr).
   destruct (sources (eff o lk fl) r); [reflexivity|discriminate].
 Qed.
